@@ -274,7 +274,7 @@ def check_c11(tier, seed, replay=None):
         "structs incl. readonly and opcodes (numeric and 4-char), messages with unordered indices, unions with struct / message branches, deprecations, doc comments; plus every ordered "
         "pair and sampled triples of definition kinds) rendered under the canonical layout and 2-3 random permitted layouts (CRLF, tabs, blank lines, one-line bodies, spacing of -> , ; and "
         "types, array[T] vs T[], final newline or not); ReadFile's File (canonical dump) must equal the dump computed from the AST, for every layout; the extracted model runs on the same text",
-        "props/C11.v", ["C11_partial", "C11_lex"])
+        "props/C11.v", ["C11_partial", "C11_lex", "C11_structs"])
     rng = SplitMix64(seed).fork("C11")
     cases = c11_cases(rng, tier)
     # hand-written cases for attachments the generator does not produce
